@@ -459,7 +459,7 @@ func genSkInput(r *Rng, nfn *int, known []*fdef, budget int) (skInput, []*fdef) 
 
 // ------------------------------------------------------------------ running sessions
 
-const prelude = `func deep(n){deep(n+1)}; acc=0; zz=0; mset = macro(nm, val){quote(unquote(nm) = unquote(val))}; func each(t,f){ r:=[]; for i=len(t){ r = r+[[f(t[i]),i]] }; r }; func times(n,f){ t=0; for k=n { t = t + f(k)*10 + k }; t }; func va(n){s=0; for i=n {s = s + vb(i)*7 + i}; s}; func vb(n){if n<=0 {return 1}; va(n-1)+n}; func id1(x){x}; idl = x => x; func dec1(x){x-1}; mobj = {"f": x => x*2}`
+const prelude = `func deep(n){deep(n+1)}; acc=0; zz=0; mset = macro(nm, val){quote(unquote(nm) = unquote(val))}; func two(a,b){a*100+b}; idl2 = (a,b) => a*100+b; func each(t,f){ r:=[]; for i=len(t){ r = r+[[f(t[i]),i]] }; r }; func times(n,f){ t=0; for k=n { t = t + f(k)*10 + k }; t }; func va(n){s=0; for i=n {s = s + vb(i)*7 + i}; s}; func vb(n){if n<=0 {return 1}; va(n-1)+n}; func id1(x){x}; idl = x => x; func dec1(x){x-1}; mobj = {"f": x => x*2, "g": (a,b) => a*100-b}`
 
 // number of on/off differences outside the known constructs seen so far: after a few dozen the
 // exploration stops early (the violation is established; under a broken tree each one may cost a deadline)
@@ -788,6 +788,34 @@ func (g *vgen) leftThenAssign(v string, vars []string) string {
 	return v + " " + op + " " + call
 }
 
+// a call (of every callee kind) with an earlier argument that is the bare variable v and a later argument that
+// assigns v: each argument is the value v had when it was evaluated
+func (g *vgen) argsThenAssign(v string) string {
+	k := g.r.Intn(9)
+	asg := "(" + v + []string{" = ", " := "}[g.r.Intn(2)] + fmt.Sprint(k) + ")"
+	forms := []string{
+		"two(%s, %s)", "idl2(%s, %s)", "mobj.g(%s, %s)", // grol function, lambda variable, method style
+		"pow(%s, %s)", "atan2(%s, %s)", "max(%s, %s)", "min(%s, %s)", // extensions: typed and variadic ANY
+		`sprintf("%%d-%%d", %s, %s)`, `sprintf("%%v|%%v", [%s], %s)`,
+		"[%s, %s]", `{"a": %s, "b": %s}`, // literals
+	}
+	f := forms[g.r.Intn(len(forms))]
+	switch g.r.Intn(4) {
+	case 0: // three arguments, the assignment in the middle
+		switch g.r.Intn(3) {
+		case 0:
+			return fmt.Sprintf("max(%s, %s, %s)", v, asg, v)
+		case 1:
+			return fmt.Sprintf(`sprintf("%%d %%d %%d", %s, %s, %s)`, v, asg, v)
+		default:
+			return fmt.Sprintf("[%s, %s, %s]", v, asg, v)
+		}
+	case 1: // builtin keyword with several parameters: evaluated for its output
+		return fmt.Sprintf("len([print(%s, \"\", %s)])", v, asg)
+	}
+	return fmt.Sprintf(f, v, asg)
+}
+
 func (g *vgen) cond(vars []string) string {
 	ops := []string{"<", ">", "==", "!=", "<=", ">="}
 	return g.intExpr(vars, 1) + ops[g.r.Intn(len(ops))] + g.intExpr(vars, 1)
@@ -879,6 +907,8 @@ func (g *vgen) stmts(fn string, ints, loops []string, strs []string, d, n int, i
 			default:
 				out = append(out, fmt.Sprintf("println(%s[%s][0:1])", big, v))
 			}
+		case k < 61 && len(all) > 0:
+			out = append(out, "println("+g.argsThenAssign(all[g.r.Intn(len(all))])+")")
 		case k < 62 && len(all) > 0:
 			out = append(out, "println("+g.leftThenAssign(all[g.r.Intn(len(all))], all)+")")
 		case k < 70:
@@ -1030,7 +1060,9 @@ func (g *vgen) input() string {
 	}
 	n := 1 + g.r.Intn(3)
 	for i := 0; i < n; i++ {
-		switch g.r.Intn(6) {
+		switch g.r.Intn(7) {
+		case 6:
+			parts = append(parts, fmt.Sprintf("for tv0=%d {println(%s)}", 1+g.r.Intn(4), g.argsThenAssign("tv0")))
 		case 5:
 			parts = append(parts, `gmb = {1:"a",2:"b",3:"c",4:"d",5:"e"}; gms = {1:"a",2:"b"}`,
 				fmt.Sprintf("for tv0=%d:%d {print(gmb[tv0], gms[tv0], [tv0]==[2])}", g.r.Intn(3), 4+g.r.Intn(4)),
@@ -1092,6 +1124,8 @@ var fixedCorpus = [][]string{
 	{`func f(n){{n:print("a"), n:print("b")}};f(1)`}, {`for n=0:2{println({n:1, n:2})}`},
 	{`m={1:"a",2:"b",3:"c",4:"d",5:"e"}; for i=1:6 {print(m[i])}`}, {`m={1:"a",2:"b",3:"c",4:"d",5:"e"}; f=func(k){m[k]}; f(3)`},
 	{`m={1:"a",2:"b",3:"c",4:"d",5:"e"}; for i=1:3 {del(m[i])}; m`}, {`func f(k){[[k] == [3], [k] < [4], {k:1}]}; f(3)`},
+	{`func f(n){pow(n,(n=2))}; f(3)`}, {`func f(n){max(n,(n=1))}; f(3)`}, {`func f(n){sprintf("%d-%d",n,(n=1))}; f(3)`}, {`for i=3{println(max(i,(i=0)))}`},
+	{`func f(n){two(n,(n=2))}; f(3)`}, {`func f(n){println(n, (n=2)); [n,(n=7),n]}; f(3)`},
 	{`each([[1,2],[3],[4,5,6]], x=>each(x, y=>y*10))`}, {`println(va(4), vb(3))`}, {`times(3, a=>times(a+1, b=>a*b))`},
 	{`func f(n){ func n(){1}; n }; f(5)`}, {`for i=3 { func i(){7}; println(i) }`}, {`func f(n){ g = func(n){n*2}; [g(3), n] }; f(5)`},
 	{`func f(n){ mset(n, 9); n }; f(5)`}, {`func f(n){[10,11,12,13,14,15][n:(n=4)]}; f(1)`}, {`func f(n){for k=[1,2,3]{if k==3{n=100;break};n}}; f(5)`},
